@@ -183,6 +183,11 @@ func (s *Server) serve(ctx context.Context, listener net.Listener, handler Modbu
 			onErrorFunc:    onErrorFunc,
 		}
 		s.trackConn(c, true)
+		if s.isShutdown.Load() {
+			// Shutdown() was called while this connection was being accepted and did not see it in tracked connections.
+			// Close it here, connection goroutine will then end right away and do the usual cleanup.
+			_ = netConn.Close()
+		}
 		go func(ctx context.Context, conn *connection) {
 			defer func() {
 				if rec := recover(); rec != nil {
